@@ -5,6 +5,7 @@ package main
 
 import (
 	"fmt"
+	"go/constant"
 	"go/token"
 	"go/types"
 	"strings"
@@ -279,4 +280,27 @@ func (ke *kindEnv) kinds(st *pstate, a *Sym) KindSet {
 		}
 	}
 	return k
+}
+
+// indirectOf recognises the three spellings of reflect.Indirect(X) on a path: the call itself; X.Elem() where the path
+// knows X.Kind() == Ptr; X itself where the path knows X.Kind() != Ptr.
+func indirectOf(st *pstate, s *Sym) (*Sym, bool) {
+	isPtr := func(x *Sym) (bool, bool) {
+		return evalBool(st, &Sym{K: sCmp, Op: token.EQL, A: &Sym{K: sKind, A: x}, B: &Sym{K: sConst, C: constant.MakeInt64(int64(kPtr))}})
+	}
+	if fn, call := calleeOfSym(s); call != nil {
+		args := symArgs(st, s)
+		if isReflectFunc(fn, "Indirect") && len(args) == 1 {
+			return args[0], true
+		}
+		if isReflectMethod(fn, "Elem") && len(args) == 1 {
+			if p, known := isPtr(args[0]); known && p {
+				return args[0], true
+			}
+		}
+	}
+	if p, known := isPtr(s); known && !p {
+		return s, true
+	}
+	return nil, false
 }
